@@ -93,6 +93,8 @@ def check(tier, vseed, args):
             "conservation_checked": stats.c.get("conservation_checked", 0),
             "skipped_build_failed": stats.c.get("skipped_build_failed", 0),
             "skipped_baseline_does_not_terminate": stats.c.get("skipped_baseline_budget", 0),
+            "skipped_driver_loop_outside_recovery": stats.c.get(
+                "skipped_driver_loop_outside_recovery", 0),
             "glr_multi_head_recoveries": stats.c.get("glr_multi_head_recoveries", 0),
             "violations_attributed_to_known_findings": stats.group("attributed."),
             "known_findings": kf_info,
